@@ -22,6 +22,13 @@ MatchFacts.lean:
                   mutating method on an object
   matchFresh    : (function, name) for the local names bound to a fresh
                   display / comprehension / constructor call
+  identityMarkers: (name, way of copying, preserved?) for the module-level objects matching.py compares by
+                  identity (`is` / `is not`): does copy.copy / copy.deepcopy / a pickle round trip give
+                  back the very same object (by import-time introspection)
+  matchModuleWrites: (function, module-level name, how) for every statement of a function / method of
+                  matching.py that mutates an object bound at module level or rebinds a global (state kept
+                  between calls; expected empty)
+  abcClassTable : class rows (real MRO + stdlib ABCs) of the builtin value classes (CPython's table)
   combSelfWrites: (class, method, attribute) for every statement of a method other than
                   __init__ of the spec classes of matching.py (_Bool, And, Or, Not, _MExpr,
                   _MSubspec, _MType, Switch, Check, Match, Regex, Optional, Required) that
@@ -422,6 +429,70 @@ def extract(ctx):
         if not any(r[0] == '_MISSING' for r in identity):
             P.add('matching.py: no identity test against _MISSING found')
 
+    # ---- state kept between calls: every statement of a function / method of matching.py that stores
+    # into, deletes from, or calls a mutating method on an object bound at MODULE level (or rebinds a
+    # module-level name through `global`).  Expected empty: the matcher asks isinstance / == anew on every
+    # call and remembers nothing (C09: a history of calls is judged call by call).
+    mod_names = set()
+    for st in mt.body:
+        if isinstance(st, (ast.Assign, ast.AnnAssign, ast.AugAssign)):
+            for t in (st.targets if isinstance(st, ast.Assign) else [st.target]):
+                for n in ast.walk(t):
+                    if isinstance(n, ast.Name):
+                        mod_names.add(n.id)
+        elif isinstance(st, (ast.Import, ast.ImportFrom)):
+            for a in st.names:
+                mod_names.add((a.asname or a.name).split('.')[0])
+        elif isinstance(st, (ast.FunctionDef, ast.ClassDef)):
+            mod_names.add(st.name)
+
+    def all_funcs(node, prefix=''):
+        for st in node.body:
+            if isinstance(st, ast.FunctionDef):
+                yield prefix + st.name, st
+                yield from all_funcs(st, prefix + st.name + '.')
+            elif isinstance(st, ast.ClassDef):
+                yield from all_funcs(st, prefix + st.name + '.')
+
+    def base_of(e):
+        while isinstance(e, (ast.Subscript, ast.Attribute)):
+            e = e.value
+        return e
+
+    module_writes = []
+    for fname, fn in all_funcs(mt):
+        a = fn.args
+        local = {x.arg for x in a.args + a.kwonlyargs + a.posonlyargs}
+        for x in (a.vararg, a.kwarg):
+            if x is not None:
+                local.add(x.arg)
+        glob = set()
+        for n in ast.walk(fn):
+            if isinstance(n, ast.Global):
+                glob |= set(n.names)
+            elif isinstance(n, (ast.Name,)) and isinstance(n.ctx, ast.Store):
+                local.add(n.id)
+            elif isinstance(n, ast.ExceptHandler) and n.name:
+                local.add(n.name)
+        local -= glob
+        for g in sorted(glob):
+            module_writes.append((fname, g, 'global'))
+        for n in ordered([n for n in ast.walk(fn) if hasattr(n, 'lineno')]):
+            tg = []
+            if isinstance(n, (ast.Assign, ast.Delete)):
+                tg = n.targets
+            elif isinstance(n, (ast.AugAssign, ast.AnnAssign)):
+                tg = [n.target]
+            for t in tg:
+                if isinstance(t, (ast.Subscript, ast.Attribute)):
+                    b = base_of(t)
+                    if isinstance(b, ast.Name) and b.id not in local and b.id in mod_names:
+                        module_writes.append((fname, b.id, 'store'))
+            if isinstance(n, ast.Call) and isinstance(n.func, ast.Attribute) and n.func.attr in MUTATORS:
+                b = base_of(n.func.value)
+                if isinstance(b, ast.Name) and b.id not in local and b.id in mod_names:
+                    module_writes.append((fname, b.id, n.func.attr))
+
     # ---- class table rows of the builtin value classes: real MRO followed by the stdlib ABCs
     # (collections.abc, numbers) the class is a (virtual) subclass of.  CPython's table, not glom's:
     # it gives `isinstance(target, <ABC>)` its answer in the model of the type rule.
@@ -438,6 +509,7 @@ def extract(ctx):
 
     defs = [
         ('identityMarkers', 'List (String × String × Bool)', identity),
+        ('matchModuleWrites', 'List (String × String × String)', module_writes),
         ('abcClassTable', 'List (String × List String)', abc_rows),
         ('combSelfWrites', 'List (String × String × String)', self_writes),
         ('matchRaises', 'List (String × List String)', raises),
